@@ -90,9 +90,8 @@ package rjson
 //@   ensures forall(j, 0, len(data), result[j] == data[j])
 // ---------------------------------------------------------------- generated machines (safety layer)
 //@ func skipValue(data, stack) (p, stack1, err)
-//@   candidates @alloc ghost_alloc <= 64*(cap(stack) - cap(old(stack))) + 8*(len(stack) - len(old(stack)))
-//@   candidates @alloc cap(stack) >= cap(old(stack)); len(stack) >= len(old(stack)); cap(stack) == cap(old(stack)) || cap(stack) <= 2*p + 40; len(stack) == len(old(stack)) || len(stack) <= p + 2; top <= p
-//@   ensures @alloc [C20] ghost_alloc <= old(ghost_alloc) + 256*p + 4096
+//@   candidates @alloc top <= p + 1
+//@   allocsite 16*p + 1024
 //@   input data
 //@   scratch stack
 //@   sim value limit=10000 pos@_again=p+1 key@_again=cs
@@ -106,9 +105,8 @@ package rjson
 //@   ensures err == nil ==> 0 <= p && p <= len(data)
 //
 //@ func skipValueFast(data, stack) (p, stack1, err)
-//@   candidates @alloc ghost_alloc <= 64*(cap(stack) - cap(old(stack))) + 8*(len(stack) - len(old(stack)))
-//@   candidates @alloc cap(stack) >= cap(old(stack)); len(stack) >= len(old(stack)); cap(stack) == cap(old(stack)) || cap(stack) <= 2*p + 40; len(stack) == len(old(stack)) || len(stack) <= p + 2; top <= p
-//@   ensures @alloc [C20] ghost_alloc <= old(ghost_alloc) + 256*p + 4096
+//@   candidates @alloc top <= p + 1
+//@   allocsite 16*p + 1024
 //@   input data
 //@   scratch stack
 //@   cuts st_case_*, _again
@@ -119,9 +117,8 @@ package rjson
 //@   ensures err == nil ==> 0 <= p && p <= len(data)
 //
 //@ func handleArrayValues(data, handler, stack) (p, stack1, err)
-//@   candidates @alloc ghost_alloc <= 64*(cap(stack) - cap(old(stack))) + 8*(len(stack) - len(old(stack)))
-//@   candidates @alloc cap(stack) >= cap(old(stack)); len(stack) >= len(old(stack)); cap(stack) == cap(old(stack)) || cap(stack) <= 2*p + 40; len(stack) == len(old(stack)) || len(stack) <= p + 2; top <= p
-//@   ensures @alloc [C20] ghost_alloc <= old(ghost_alloc) + 256*p + 4096
+//@   candidates @alloc top <= p + 1
+//@   allocsite 16*p + 1024
 //@   input data
 //@   scratch stack
 //@   sim travarr delta=1 resync=1 pos@_again=p+1 key@_again=cs
@@ -139,9 +136,8 @@ package rjson
 //@   ensures err == nil ==> 0 <= p && p <= len(data)
 //
 //@ func handleObjectValues(data, handler, stack) (p, stack1, err)
-//@   candidates @alloc ghost_alloc <= 64*(cap(stack) - cap(old(stack))) + 8*(len(stack) - len(old(stack)))
-//@   candidates @alloc cap(stack) >= cap(old(stack)); len(stack) >= len(old(stack)); cap(stack) == cap(old(stack)) || cap(stack) <= 2*p + 40; len(stack) == len(old(stack)) || len(stack) <= p + 2; top <= p
-//@   ensures @alloc [C20] ghost_alloc <= old(ghost_alloc) + 256*p + 4096
+//@   candidates @alloc top <= p + 1
+//@   allocsite 16*p + 1024
 //@   input data
 //@   scratch stack
 //@   sim travobj delta=1 resync=1 pos@_again=p+1 key@_again=cs
@@ -198,7 +194,7 @@ package rjson
 //@   ensures [C13,C08,C12] err == nil ==> val == litat(data, wsrun(data, 0), "true") && p == wsrun(data, 0) + ite(val, 4, 5)
 //
 //@ func unescapeStringContent(data, dst) (val, p, err)
-//@   ensures @alloc [C20] err == nil ==> ghost_alloc <= old(ghost_alloc) + 4*len(dst) + 16*p + 1024
+//@   ensures @alloc [C20] err == nil ==> ghost_alloc <= old(ghost_alloc) + 4*len(dst) + 16*len(data) + 1024
 //@   candidates @alloc cap(dst) >= cap(old(dst)); len(dst) <= len(old(dst)) + segStart; len(dst) <= len(old(dst)) + p
 //@   ensures @sim [C06] qis(Rq(data, len(data)), "InValue.Str@top") ==> err == nil && p == len(data)
 //@   input data
@@ -241,7 +237,6 @@ package rjson
 //@   ensures err == nil ==> 0 <= p && p <= len(data)
 // ---------------------------------------------------------------- public wrappers
 //@ func SkipValue(data, buffer) (p, err)
-//@   ensures @alloc [C20] ghost_alloc <= old(ghost_alloc) + 256*p + 4096
 //@   input data
 //@   scratch buffer
 //@   sim value init=none
@@ -251,14 +246,12 @@ package rjson
 //@   ensures err == nil ==> 0 <= p && p <= len(data)
 //
 //@ func SkipValueFast(data, buffer) (p, err)
-//@   ensures @alloc [C20] ghost_alloc <= old(ghost_alloc) + 256*p + 4096
 //@   input data
 //@   scratch buffer
 //@   assigns buffer.stackBuf
 //@   ensures err == nil ==> 0 <= p && p <= len(data)
 //
 //@ func HandleArrayValues(data, handler, buffer) (p, err)
-//@   ensures @alloc [C20] ghost_alloc <= old(ghost_alloc) + 256*p + 4096
 //@   input data
 //@   scratch buffer
 //@   sim travarr init=none
@@ -270,7 +263,6 @@ package rjson
 //@   ensures err == nil ==> 0 <= p && p <= len(data)
 //
 //@ func HandleObjectValues(data, handler, buffer) (p, err)
-//@   ensures @alloc [C20] ghost_alloc <= old(ghost_alloc) + 256*p + 4096
 //@   input data
 //@   scratch buffer
 //@   sim travobj init=none
